@@ -109,13 +109,13 @@ def segment_bytes(seg):
             if isc(val):
                 out.append((val + 48, val <= 9))
             else:
-                w = val.word(8)
-                out.append((w + 48, z3.ULE(w, 9)))
+                w = val.word(16)
+                out.append((z3.Extract(7, 0, w + 48), z3.ULE(w, 9)))
         elif m == 'alphanumeric':
             if isc(val):
                 out.append((T.ALNUM[val] if val < 45 else 0, val < 45))
             else:
-                w = val.word(8)
+                w = val.word(16)
                 t = z3.BitVecVal(0, 8)
                 for i in range(44, -1, -1):
                     t = z3.If(w == i, z3.BitVecVal(T.ALNUM[i], 8), t)
@@ -135,6 +135,49 @@ def segment_bytes(seg):
                 code = z3.If(z3.ULE(t + lo1, hi1), t + lo1, t + lo2)
                 out.append((z3.Extract(15, 8, code), True))
                 out.append((z3.Extract(7, 0, code), True))
+    return out
+
+
+def iso_alnum_index(b):
+    """ISO Table 5 value of a character (8-bit term), 255 if not in the set"""
+    w = w8(b)
+    t = z3.BitVecVal(255, 16)
+    for i in range(44, -1, -1):
+        t = z3.If(w == T.ALNUM[i], z3.BitVecVal(i, 16), t)
+    return t
+
+
+def payload_obligations(segs, want):
+    """[(label, z3 Bool)]: the decoded segments stand for exactly the byte sequence `want` (ints / SInt).
+    byte / numeric / kanji / hanzi: decoded byte == given byte; alphanumeric: the 11-/6-bit group value is the ISO value
+    45*v(c0)+v(c1) of the given characters (equivalent to decoding, since v < 45 makes quotient and remainder unique)."""
+    out = []
+    pos = 0
+    for s in segs:
+        if s['mode'] == 'alphanumeric':
+            us = s['units']
+            k = 0
+            while k < len(us):
+                _, val, g = us[k]
+                cs = want[pos:pos + g]
+                if len(cs) < g:
+                    return [('payload-length', z3.BoolVal(False))]
+                idx = [iso_alnum_index(c) for c in cs]
+                vt = z3.BitVecVal(val, 16) if isc(val) else val.word(16)
+                rhs = idx[0] * 45 + idx[1] if g == 2 else idx[0]
+                out.append((f'alphanumeric group at byte {pos}', z3.And(vt == rhs, *[z3.ULE(i, 44) for i in idx])))
+                pos += g
+                k += g
+            continue
+        for (gt, valid) in segment_bytes(s):
+            if pos >= len(want):
+                return [('payload-length', z3.BoolVal(False))]
+            g8 = z3.BitVecVal(gt, 8) if isc(gt) else gt
+            vt = z3.BoolVal(bool(valid)) if isinstance(valid, bool) else valid
+            out.append((f'byte {pos}', z3.And(g8 == w8(want[pos]), vt)))
+            pos += 1
+    if pos != len(want):
+        return [('payload-length', z3.BoolVal(False))]
     return out
 
 
